@@ -168,6 +168,17 @@ def finish(prop, tier, seed, level, results, t0, functions, assumptions, trusted
     return code
 
 
+def unit_or_undecided(name, backend, unit, fn):
+    """Run the obligation generator of ONE unit. If its annotated shape no longer fits the source (lost anchor) or the source left the
+    evaluator's subset, that unit alone becomes one undecided result (never an alarm); the other units of the check, and its bounded
+    stand-ins on the real code, still run. Returns (value of fn or None, [Result])."""
+    from .symex import Unsupported
+    try:
+        return fn(), []
+    except (Undecided, Unsupported) as e:
+        return None, [Result(name, backend, "undecided", 0.0, "", "%s: %s" % (type(e).__name__, e), unit)]
+
+
 def from_smt(ob, replay_fn=None):
     """smt.Obligation → Result (and run the replay for refuted ones)."""
     backend = "guard" if ob.expect_sat else "E2"
